@@ -311,7 +311,11 @@ def w_fcidump(m, lay, rng, variant):
 
 
 def w_gaussianinput(m, lay, rng, variant):
-    lines = ["%chk=model.chk", "#p HF/6-31G(d) SP", "", m.title, "", "0 1"]
+    route = {"plain": "#p HF/6-31G(d) SP",
+             # coordinates stay in angstrom whatever else the route says (explicit angstrom units, basis-set names, ...)
+             "route_units": "#p Units=(Ang,Deg) mp2/aug-cc-pvdz sp",
+             "route_long": "#p b3lyp/gen pseudo=read scf=(tight,maxcycle=300) guess=read nosymm gfinput iop(6/7=3)"}.get(variant, "#p HF/6-31G(d) SP")
+    lines = ["%chk=model.chk", "%nprocshared=4", route, "", m.title, "", "0 1"] if variant != "plain" else ["%chk=model.chk", route, "", m.title, "", "0 1"]
     for s, r in zip(m.sym, m.xyz):
         lines.append(f" {s:<3s} {r[0]:16.8f} {r[1]:16.8f} {r[2]:16.8f}")
     lines += ["", ""]
@@ -697,7 +701,8 @@ WRITERS = {"xyz": w_xyz, "extxyz": w_extxyz, "sdf": w_sdf, "pdb": w_pdb, "gromac
            "orcalog": w_orcalog, "gamess": w_gamess, "qchemlog": w_qchemlog, "wfx": w_wfx}
 VARIANTS = {"xyz": ["plain", "numbers"], "poscar": ["direct", "cartesian", "selective", "scaled"], "cube": ["five", "ragged", "six", "one"],
             "gromacs": ["rect", "triclinic"], "json_qcschema": ["plain", "massnumbers"], "gaussianlog": ["plain", "twoel"], "orcalog": ["plain", "opt"], "gamess": ["plain", "opt"],
-            "qchemlog": ["plain", "unrestricted", "freq"], "wfx": ["plain", "gradient", "gradient_permuted"], "fchk": ["plain", "shuffled"]}
+            "qchemlog": ["plain", "unrestricted", "freq"], "wfx": ["plain", "gradient", "gradient_permuted"], "fchk": ["plain", "shuffled"],
+            "gaussianinput": ["plain", "route_units", "route_long"]}
 # coordinate digits written per format and the magnitude classes its columns can hold
 DIGITS = {"xyz": 8, "extxyz": 8, "sdf": 4, "pdb": 3, "gromacs": 3, "charmm": 5, "mol2": 4, "poscar": 8, "chgcar": 8, "locpot": 8, "cube": 6,
           "fcidump": 3, "gaussianinput": 8, "json_qcschema": 8, "fchk": 8, "gaussianlog": 6, "orcalog": 6, "gamess": 10, "qchemlog": 10, "wfx": 10}
